@@ -296,7 +296,7 @@ def run(ctx):
     quick = ctx.quick
     build = ctx.build_repo("ref", san=False)
     drivers = vc.compile_all(ctx, san=False)
-    seeds = {1: 3, 3: 1, 5: 1} if quick else {1: 12, 3: 6, 5: 4}
+    seeds = {1: 3, 3: 1, 5: 1} if quick else {1: 24, 3: 10, 5: 6}
     sr = ctx.rng.fork("c02-seeds")
     jobs = []
     for (lvl, variant) in drivers:
